@@ -32,6 +32,10 @@ def cases(tier, seed):
         out.append({"s": int(rng.integers(1 << 30)), "topology": TOPOLOGIES[j % 5], "repl": REPLS[(j // 5) % len(REPLS)], "cell": ["ortho", "tri+-+", "tri--+", "ortho"][(j // 3) % 4],
                     "replace_all": (j // 7) % 3 == 0, "ignore": (j // 2) % 4 == 0, "fraction": [1.0, 1.0, 0.5, 0.34, 0.75][(j // 11) % 5],
                     "sample": ["first", "last", "real"][(j // 13) % 3]})
+    # one atom claimed by 128..260 matches at once (a hub with that many like neighbours): counters and masks of one byte end here
+    for j in range(3 if tier == "quick" else 60):
+        out.append({"s": int(rng.integers(1 << 30)), "topology": "big_star", "repl": ["keep_rest_replace_first", "substitute_all", "empty"][j % 3], "cell": "ortho",
+                    "replace_all": False, "ignore": False, "fraction": 1.0, "sample": "real", "k": [130, 260, 128][j % 3]})
     return out
 
 
@@ -48,6 +52,17 @@ def build(rng, case):
             els.append("N" if top == "homo_chain" else ("Si" if i % 2 == 0 else "O"))
             pos.append([i * d, 0, 0])
         pat = {"elements": ["N", "N"] if top == "homo_chain" else ["Si", "O"], "positions": np.array([[0, 0, 0], [d, 0, 0]], float)}
+    elif top == "big_star":
+        k = case["k"]
+        els.append("Zr")
+        pos.append([0, 0, 0])
+        ga = np.pi * (3 - np.sqrt(5))
+        for i in range(k):          # k points spread over a sphere
+            z = 1 - 2 * (i + 0.5) / k
+            r = np.sqrt(1 - z * z)
+            els.append("O")
+            pos.append([d * r * np.cos(ga * i), d * r * np.sin(ga * i), d * z])
+        pat = {"elements": ["Zr", "O"], "positions": np.array([[0, 0, 0], [d, 0, 0]], float)}
     elif top == "star":
         k = int(rng.integers(3, 7))
         dirs = {3: [[1, 0, 0], [-0.5, 0.866, 0], [-0.5, -0.866, 0]], 4: [[1, 1, 1], [1, -1, -1], [-1, 1, -1], [-1, -1, 1]],
@@ -278,6 +293,8 @@ def requirements(stats, tier):
         need.append("error raised %d times, conservation checked %d times" % (stats.get("dedicated_error_raised"), stats.get("conservation_checked")))
     if stats.get("term_integrity_checked_with_overlapping_matches") < (20 if tier == "quick" else 2000):
         need.append("structures with terms whose matches overlapped and a structure was returned: %d" % stats.get("term_integrity_checked_with_overlapping_matches"))
+    if not stats.has("topology", "big_star"):
+        need.append("no hub atom claimed by 128 or more matches observed")
     if stats.nseen("flag_form") < 8:
         need.append("forms of the ignore flag observed: %s" % sorted(stats.sets.get("flag_form", [])))
     if stats.nseen("topology") < 5 or stats.nseen("repl") < len(REPLS):
